@@ -19,8 +19,8 @@ for d in seeded/${1:-}*/; do
   if [ -n "$out" ]; then ok=$((ok+1)); echo "$name [$prop]: $out"; else miss=$((miss+1)); echo "$name [$prop]: MISSED"; fi
 done
 echo "detected $ok, missed $miss"
-# negative controls: no check may raise an alarm
-for c in controls/*.diff; do
+# negative controls: no check may raise an alarm (SKIP_CONTROLS=1: seeds only; tools/run_controls_bg.sh runs them alone)
+for c in $([ "${SKIP_CONTROLS:-0}" = 1 ] || ls controls/*.diff); do
   (cd $R && git apply $OLDPWD/$c) || { echo "$c: does not apply"; continue; }
   for p in C01 C02 C03 C04 C05 C06 C07 C08 C09 C10 C11 C12 C13 C14 C15 C16 C17 C18; do
     out=$(VERIF_NO_EXTRA_SEEDS=1 ./check $p 2>&1 | grep -E "VIOLATION" | head -1)
